@@ -176,58 +176,110 @@ pub fn run_c15(tier: Tier) -> ! {
     let mut cfgs = vec![];
     let peer = 40u8;
     let ring_variants: Vec<(u8, Vec<u8>)> = vec![(2, vec![]), (2, vec![5]), (3, vec![1, 5])];
+    let depth = tier.pick(12usize, 16);
+    let wcap = tier.pick(20.0, 600.0);
+    let visits: u32 = tier.pick(6, 9);
+    let ttrs: Vec<Option<u32>> = tier.pick(vec![None, Some(256u32)], vec![None, Some(256), Some(1000)]);
+    let divs: Vec<i64> = tier.pick(vec![8], vec![8, 3]);
     for (ts, members0) in ring_variants {
-        // one application: all scripts up to length 3
-        for s in all_scripts(tier.pick(2, 3), peer) {
-            if s.is_empty() {
-                continue;
-            }
-            for ttr in [None, Some(256u32)] {
-                if ttr.is_some() && (s.len() < 2 || !members0.is_empty()) && tier == Tier::Quick {
+        for &period_div in &divs {
+            // one application: all scripts up to length 2 (thorough 4)
+            for s in all_scripts(tier.pick(2, 4), peer) {
+                if s.is_empty() {
                     continue;
                 }
-                let cfg = RCfg { ts, hsa: 6, gap_factor: 10, slot_bits: 100, ttr, period_div: 8, members0: members0.clone(), scripts: vec![s.clone()], multi: true, mon: RMon::C15, max_visits: 6, join_budget: 0 };
-                cfgs.push((format!("1app {:?} ring{:?} ttr{:?}", s, members0, ttr), cfg, 12, 20.0, 200_000));
+                for &ttr in &ttrs {
+                    if ttr.is_some() && (s.len() < 2 || !members0.is_empty()) && tier == Tier::Quick {
+                        continue;
+                    }
+                    let cfg = RCfg { ts, hsa: 6, gap_factor: 10, slot_bits: 100, ttr, period_div, members0: members0.clone(), scripts: vec![s.clone()], multi: true, mon: RMon::C15, max_visits: visits, join_budget: 0 };
+                    cfgs.push((format!("1app {:?} ring{:?} ttr{:?} div{period_div}", s, members0, ttr), cfg, depth, wcap, 400_000));
+                }
             }
-        }
-        // two applications: all script pairs up to length 2 (thorough: 3 for the first)
-        let s2 = all_scripts(2, peer);
-        for a in &s2 {
-            for b in &s2 {
+            // two applications: all script pairs up to length 2 (thorough: one of the two up to length 3)
+            let s2 = all_scripts(2, peer);
+            let s3 = all_scripts(tier.pick(2, 3), peer);
+            let mut pairs: Vec<(Vec<Step>, Vec<Step>)> = vec![];
+            for a in &s3 {
+                for b in &s2 {
+                    pairs.push((a.clone(), b.clone()));
+                    if a.len() > 2 {
+                        pairs.push((b.clone(), a.clone()));
+                    }
+                }
+            }
+            for (a, b) in &pairs {
                 if a.is_empty() && b.is_empty() {
                     continue;
                 }
                 if tier == Tier::Quick && !members0.is_empty() && (a.len() + b.len()) % 2 == 1 {
                     continue;
                 }
-                for ttr in [None, Some(256u32)] {
+                for &ttr in &ttrs {
                     // with the minimum target rotation time the token is always late: only the one
                     // high-priority message cycle per visit runs
                     if ttr.is_some() && tier == Tier::Quick && (a.len() + b.len()) < 3 {
                         continue;
                     }
-                    let cfg = RCfg { ts, hsa: 6, gap_factor: 10, slot_bits: 100, ttr, period_div: 8, members0: members0.clone(), scripts: vec![a.clone(), b.clone()], multi: true, mon: RMon::C15, max_visits: if ttr.is_some() { 8 } else { 6 }, join_budget: 0 };
-                    cfgs.push((format!("2apps {:?}/{:?} ring{:?} ttr{:?}", a, b, members0, ttr), cfg, 12, 20.0, 200_000));
+                    if period_div != 8 && (a.len() > 2 || b.len() > 2) {
+                        continue;
+                    }
+                    let cfg = RCfg { ts, hsa: 6, gap_factor: 10, slot_bits: 100, ttr, period_div, members0: members0.clone(), scripts: vec![a.clone(), b.clone()], multi: true, mon: RMon::C15, max_visits: if ttr.is_some() { visits + 2 } else { visits }, join_budget: 0 };
+                    cfgs.push((format!("2apps {:?}/{:?} ring{:?} ttr{:?} div{period_div}", a, b, members0, ttr), cfg, depth, wcap, 400_000));
                 }
             }
-        }
-        // three applications: scripts up to length 1 (thorough 2 for one of them)
-        let s1 = all_scripts(1, peer);
-        for a in &s1 {
-            for b in &s1 {
-                for c in &s1 {
-                    let cfg = RCfg { ts, hsa: 6, gap_factor: 10, slot_bits: 100, ttr: None, period_div: 8, members0: members0.clone(), scripts: vec![a.clone(), b.clone(), c.clone()], multi: true, mon: RMon::C15, max_visits: 5, join_budget: 0 };
-                    cfgs.push((format!("3apps ring{:?}", members0), cfg, 10, 20.0, 200_000));
+            // three applications: scripts up to length 1 (thorough: also one of them of length 2, and the
+            // always-late token)
+            let s1 = all_scripts(1, peer);
+            let mut triples: Vec<Vec<Vec<Step>>> = vec![];
+            for a in &s1 {
+                for b in &s1 {
+                    for c in &s1 {
+                        triples.push(vec![a.clone(), b.clone(), c.clone()]);
+                    }
                 }
             }
+            if tier == Tier::Thorough && period_div == 8 {
+                for l in s2.iter().filter(|x| x.len() == 2) {
+                    for b in &s1 {
+                        for c in &s1 {
+                            triples.push(vec![l.clone(), b.clone(), c.clone()]);
+                            triples.push(vec![b.clone(), l.clone(), c.clone()]);
+                            triples.push(vec![b.clone(), c.clone(), l.clone()]);
+                        }
+                    }
+                }
+            }
+            for tr in &triples {
+                for &ttr in &ttrs {
+                    if ttr.is_some() && tier == Tier::Quick {
+                        continue;
+                    }
+                    let cfg = RCfg { ts, hsa: 6, gap_factor: 10, slot_bits: 100, ttr, period_div, members0: members0.clone(), scripts: tr.clone(), multi: true, mon: RMon::C15, max_visits: visits - 1, join_budget: 0 };
+                    cfgs.push((format!("3apps ring{:?} ttr{:?}", members0, ttr), cfg, depth - 2, wcap, 400_000));
+                }
+            }
+            // four applications (thorough, station alone or with one peer): scripts up to length 1
+            if tier == Tier::Thorough && period_div == 8 && members0.len() <= 1 {
+                for a in &s1 {
+                    for b in &s1 {
+                        for c in &s1 {
+                            for d in &s1 {
+                                let cfg = RCfg { ts, hsa: 6, gap_factor: 10, slot_bits: 100, ttr: None, period_div, members0: members0.clone(), scripts: vec![a.clone(), b.clone(), c.clone(), d.clone()], multi: true, mon: RMon::C15, max_visits: visits - 1, join_budget: 0 };
+                                cfgs.push((format!("4apps ring{:?}", members0), cfg, depth - 2, wcap, 400_000));
+                            }
+                        }
+                    }
+                }
+            }
+            // zero applications through poll_multi
+            let cfg = RCfg { ts, hsa: 6, gap_factor: 10, slot_bits: 100, ttr: None, period_div, members0: members0.clone(), scripts: vec![], multi: true, mon: RMon::C15, max_visits: 4, join_budget: 0 };
+            cfgs.push((format!("0apps ring{:?}", members0), cfg, 6, 10.0, 10_000));
         }
-        // zero applications through poll_multi
-        let cfg = RCfg { ts, hsa: 6, gap_factor: 10, slot_bits: 100, ttr: None, period_div: 8, members0: members0.clone(), scripts: vec![], multi: true, mon: RMon::C15, max_visits: 4, join_budget: 0 };
-        cfgs.push((format!("0apps ring{:?}", members0), cfg, 6, 10.0, 10_000));
     }
     let n = cfgs.len();
     explore_r(cfgs, &mut t);
-    finish_r(t, "C15", tier, json!({"script_application_combinations": n, "peer_behaviours": 8, "rings": ["alone", "two stations", "three stations"]}), vec!["c15_transmit_call", "c15_reply_delivered", "c15_timeout_delivered"])
+    finish_r(t, "C15", tier, json!({"script_application_combinations": n, "peer_behaviours": 8, "rings": ["alone", "two stations", "three stations"], "depth": depth, "token_visits": visits, "target_rotation_times": format!("{:?}", ttrs), "poll_period_divisors": format!("{:?}", divs), "applications": tier.pick("0..3", "0..4")}), vec!["c15_transmit_call", "c15_reply_delivered", "c15_timeout_delivered"])
 }
 
 pub fn replay(v: &Value) {
